@@ -7,18 +7,23 @@ package hash
 // verdict comes from TLC validating the recorded trace against specs/hash/Ring.tla.
 //
 // One trace = one hash function + one node family + one probe-key set + many ring
-// instances.  Node ids are indexes into the family (one id per lang.Repr string); a
-// "form" identifies the concrete Go value added under that representation.
+// instances.  Node ids are indexes into the family: one id per node NAME (specs/hash/RingRepr.tla:
+// the decimal spelling of a number's mathematical value, the text of a string / Stringer); a
+// "form" identifies the concrete typed Go value used for that node.  Names are derived from the
+// typed values by the driver itself (ringDescribe), never through lang.Repr -- which is part of
+// the code under verification -- and values returned by Get are mapped back to (node, form) by
+// Go equality.  The reset event describes every form (type, sign, magnitude/text) so that the
+// spec checks the numbering (Ring.tla ValsOK).
 
 import (
 	"encoding/json"
 	"fmt"
+	"math/big"
 	"math/rand"
 	"sort"
 	"strconv"
+	"strings"
 	"testing"
-
-	"github.com/zeromicro/go-zero/core/lang"
 )
 
 // ---------------------------------------------------------------- node values
@@ -32,8 +37,54 @@ type ringPStr struct{ s string } // fmt.Stringer by pointer
 func (r *ringPStr) String() string { return r.s }
 
 type ringNode struct {
-	repr  string
-	forms []any // forms[f-1]
+	repr  string // the node's name (= what lang.Repr has to return for every form)
+	forms []any  // forms[f-1]
+	pref  int    // numeric families: forms[:pref] are the boundary forms (narrowest types holding the number)
+}
+
+// pickForm chooses the Go value an operation uses for node n: uniformly, except that in numeric
+// families every other choice is a boundary form (input selection only).
+func (f ringFamily) pickForm(rnd *rand.Rand, n int) int {
+	nd := f.nodes[n-1]
+	if nd.pref > 0 && rnd.Intn(2) == 0 {
+		return 1 + rnd.Intn(nd.pref)
+	}
+	return 1 + rnd.Intn(len(nd.forms))
+}
+
+// ringBoundaryForms: the integer in the NARROWEST signed and the narrowest unsigned type that
+// hold it -- the types at whose range ends it sits or in which a conversion would wrap.
+func ringBoundaryForms(neg bool, mag uint64) []any {
+	var out []any
+	if (!neg && mag <= 1<<63-1) || (neg && mag <= 1<<63) {
+		x := int64(mag)
+		if neg {
+			x = -int64(mag-1) - 1
+		}
+		switch {
+		case x >= -1<<7 && x <= 1<<7-1:
+			out = append(out, int8(x))
+		case x >= -1<<15 && x <= 1<<15-1:
+			out = append(out, int16(x))
+		case x >= -1<<31 && x <= 1<<31-1:
+			out = append(out, int32(x))
+		default:
+			out = append(out, x)
+		}
+	}
+	if !neg {
+		switch {
+		case mag <= 1<<8-1:
+			out = append(out, uint8(mag))
+		case mag <= 1<<16-1:
+			out = append(out, uint16(mag))
+		case mag <= 1<<32-1:
+			out = append(out, uint32(mag))
+		default:
+			out = append(out, mag)
+		}
+	}
+	return out
 }
 
 type ringFamily struct {
@@ -41,23 +92,285 @@ type ringFamily struct {
 	nodes []ringNode // nodes[n-1]
 }
 
-// formsOf lists Go values whose lang.Repr is s.
+// ringDesc describes a typed Go value to the spec: Go type, sign, magnitude digits (numbers) or
+// the text (strings, Stringers).  Ring.tla: Canon = sign + magnitude = the node's name.
+type ringDesc struct {
+	T   string `json:"t"`
+	Neg bool   `json:"neg"`
+	Mag string `json:"mag"`
+}
+
+func (d ringDesc) name() string {
+	if d.Neg {
+		return "-" + d.Mag
+	}
+	return d.Mag
+}
+
+func ringSigned(t string, x int64) ringDesc {
+	if x < 0 {
+		return ringDesc{t, true, strconv.FormatUint(uint64(-(x+1))+1, 10)}
+	}
+	return ringDesc{t, false, strconv.FormatUint(uint64(x), 10)}
+}
+
+func ringUnsigned(t string, x uint64) ringDesc {
+	return ringDesc{t, false, strconv.FormatUint(x, 10)}
+}
+
+// the exact decimal expansion of x (every float has a finite one; the driver only uses floats
+// whose shortest round-trip spelling IS the exact one: integers below 2^24 / 2^53, small dyadic
+// fractions, and multiples of large powers of ten listed in ringFloatNames)
+func ringFloat(t string, x float64) ringDesc {
+	neg := x < 0
+	if neg {
+		x = -x
+	}
+	txt := new(big.Float).SetFloat64(x).Text('f', 60)
+	if strings.Contains(txt, ".") {
+		txt = strings.TrimRight(strings.TrimRight(txt, "0"), ".")
+	}
+	if txt == "0" {
+		neg = false
+	}
+	return ringDesc{t, neg, txt}
+}
+
+func ringDescribe(v any) (ringDesc, bool) {
+	switch x := v.(type) {
+	case string:
+		return ringDesc{"string", false, x}, true
+	case ringStr:
+		return ringDesc{"stringer", false, x.s}, true
+	case *ringPStr:
+		return ringDesc{"pstringer", false, x.s}, true
+	case int:
+		return ringSigned("int", int64(x)), true
+	case int8:
+		return ringSigned("int8", int64(x)), true
+	case int16:
+		return ringSigned("int16", int64(x)), true
+	case int32:
+		return ringSigned("int32", int64(x)), true
+	case int64:
+		return ringSigned("int64", x), true
+	case uint:
+		return ringUnsigned("uint", uint64(x)), true
+	case uint8:
+		return ringUnsigned("uint8", uint64(x)), true
+	case uint16:
+		return ringUnsigned("uint16", uint64(x)), true
+	case uint32:
+		return ringUnsigned("uint32", uint64(x)), true
+	case uint64:
+		return ringUnsigned("uint64", x), true
+	case float32:
+		return ringFloat("float32", float64(x)), true
+	case float64:
+		return ringFloat("float64", x), true
+	case *int:
+		return ringSigned("*int", int64(*x)), true
+	case *int64:
+		return ringSigned("*int64", *x), true
+	case *uint64:
+		return ringUnsigned("*uint64", *x), true
+	case *float64:
+		return ringFloat("*float64", *x), true
+	}
+	return ringDesc{}, false
+}
+
+// ringName is the driver's own name of a value (node or lookup key).
+func ringName(t *testing.T, v any) string {
+	d, ok := ringDescribe(v)
+	if !ok {
+		t.Fatalf("driver: value %v (%T) has no description", v, v)
+	}
+	return d.name()
+}
+
+// non-integer (or beyond 64 bits) numbers used as nodes: exactly representable in float32 and
+// float64 (the last one in float64 only), shortest spelling = exact spelling
+var ringFloatNames = map[string]float64{
+	"0.5": 0.5, "-2.25": -2.25, "1.75": 1.75, "0.125": 0.125, "1048576.5": 1048576.5, "-7.5": -7.5,
+	"300000000000000000000": 3e20,
+}
+
+// ringParseInt: is s the canonical decimal spelling of an integer of magnitude < 2^64?
+func ringParseInt(s string) (neg bool, mag uint64, ok bool) {
+	digits := s
+	if strings.HasPrefix(s, "-") {
+		neg, digits = true, s[1:]
+	}
+	if digits == "" || (len(digits) > 1 && digits[0] == '0') || (neg && digits == "0") {
+		return false, 0, false
+	}
+	for _, c := range digits {
+		if c < '0' || c > '9' {
+			return false, 0, false
+		}
+	}
+	mag, err := strconv.ParseUint(digits, 10, 64)
+	if err != nil {
+		return false, 0, false
+	}
+	return neg, mag, true
+}
+
+// ringIntForms: the integer (sign, magnitude) in EVERY Go numeric type that holds it exactly.
+func ringIntForms(neg bool, mag uint64) []any {
+	var forms []any
+	if (!neg && mag <= 1<<63-1) || (neg && mag <= 1<<63) {
+		x := int64(mag)
+		if neg {
+			x = -int64(mag-1) - 1
+		}
+		xi := int(x)
+		forms = append(forms, x, &x, xi, &xi)
+		if x >= -1<<31 && x <= 1<<31-1 {
+			forms = append(forms, int32(x))
+		}
+		if x >= -1<<15 && x <= 1<<15-1 {
+			forms = append(forms, int16(x))
+		}
+		if x >= -1<<7 && x <= 1<<7-1 {
+			forms = append(forms, int8(x))
+		}
+	}
+	if !neg {
+		u := mag
+		forms = append(forms, u, &u, uint(u))
+		if u <= 1<<32-1 {
+			forms = append(forms, uint32(u))
+		}
+		if u <= 1<<16-1 {
+			forms = append(forms, uint16(u))
+		}
+		if u <= 1<<8-1 {
+			forms = append(forms, uint8(u))
+		}
+	}
+	if mag <= 1<<53 && !(neg && mag == 0) {
+		f := float64(mag)
+		if neg {
+			f = -f
+		}
+		forms = append(forms, f, &f)
+		if mag <= 1<<24 {
+			forms = append(forms, float32(f))
+		}
+	}
+	return forms
+}
+
+// formsOf lists comparable Go values whose name is s: the text forms, and for numerals every
+// numeric type that holds the number.
 func formsOf(s string, rnd *rand.Rand) []any {
-	forms := []any{s, ringStr{s}, &ringPStr{s}, []byte(s)}
-	if v, err := strconv.Atoi(s); err == nil && strconv.Itoa(v) == s {
-		forms = append(forms, v, int64(v), &v)
-		if v >= 0 && v < 65536 {
-			forms = append(forms, uint16(v), uint64(v))
+	forms := []any{s, ringStr{s}, &ringPStr{s}}
+	if neg, mag, ok := ringParseInt(s); ok {
+		forms = append(forms, ringIntForms(neg, mag)...)
+	} else if f, ok := ringFloatNames[s]; ok {
+		g := f
+		forms = append(forms, f, &g)
+		if float64(float32(f)) == f {
+			forms = append(forms, float32(f))
 		}
 	}
-	// []byte is not comparable (cannot be looked up by ==): keep comparable ones only
-	out := forms[:0]
-	for _, f := range forms {
-		if _, isBytes := f.([]byte); !isBytes {
-			out = append(out, f)
+	rnd.Shuffle(len(forms), func(i, j int) { forms[i], forms[j] = forms[j], forms[i] })
+	return forms
+}
+
+// ringNumericFamily: nodes that are NUMBERS at and around the boundaries of the integer types.
+// An anchor u in the top half of the unsigned w-bit range (w = 8/16/32/64), its two's-complement
+// twin u-2^w, that twin's magnitude, the truncation twin u+2^w, the signed boundary values, small
+// numbers of both signs, zero, a fraction and a number beyond 64 bits: distinct numbers, distinct
+// nodes (RingRepr.tla Faithful), each used in every numeric type that holds it, as a string and
+// as Stringers.
+func ringNumericFamily(rnd *rand.Rand, w, size int) ringFamily {
+	if w == 0 {
+		w = []int{8, 16, 32, 64}[rnd.Intn(4)]
+	}
+	one := big.NewInt(1)
+	full := new(big.Int).Lsh(one, uint(w))
+	half := new(big.Int).Lsh(one, uint(w-1))
+	d := big.NewInt(int64(1 + rnd.Intn(9)))
+	var u *big.Int
+	switch rnd.Intn(5) {
+	case 0:
+		u = new(big.Int).Set(half)
+	case 1:
+		u = new(big.Int).Add(half, d)
+	case 2:
+		u = new(big.Int).Sub(full, one)
+	case 3:
+		u = new(big.Int).Sub(full, d)
+	default:
+		u = new(big.Int).Add(half, new(big.Int).Rand(rnd, half))
+	}
+	s := new(big.Int).Sub(u, full)
+	names := []string{u.String(), s.String()}
+	small := int64(rnd.Intn(100))
+	pool := []string{
+		new(big.Int).Neg(s).String(),                    // magnitude of the twin
+		new(big.Int).Sub(half, one).String(),            // largest signed
+		new(big.Int).Neg(half).String(),                 // smallest signed
+		new(big.Int).Sub(full, one).String(),            // largest unsigned
+		strconv.FormatInt(small, 10), strconv.FormatInt(-small-1, 10), "0",
+		[]string{"0.5", "-2.25", "1.75", "0.125", "1048576.5", "-7.5", "300000000000000000000"}[rnd.Intn(7)],
+		u.String() + "1", // a numeral whose replica names collide with the anchor's ("u"+"1x" = "u1"+"x")
+	}
+	if w < 64 {
+		pool = append(pool, new(big.Int).Add(u, full).String()) // truncates to u in w bits
+	}
+	rnd.Shuffle(len(pool), func(i, j int) { pool[i], pool[j] = pool[j], pool[i] })
+	seen := map[string]bool{names[0]: true, names[1]: true}
+	for _, p := range pool {
+		if len(names) >= size {
+			break
+		}
+		if !seen[p] {
+			seen[p] = true
+			names = append(names, p)
 		}
 	}
-	rnd.Shuffle(len(out), func(i, j int) { out[i], out[j] = out[j], out[i] })
+	f := ringFamily{name: fmt.Sprintf("numeric w=%d %v", w, names)}
+	for _, nm := range names {
+		nd := ringNode{repr: nm, forms: formsOf(nm, rnd)}
+		if neg, mag, ok := ringParseInt(nm); ok {
+			for _, b := range ringBoundaryForms(neg, mag) {
+				for i := nd.pref; i < len(nd.forms); i++ {
+					if nd.forms[i] == b {
+						nd.forms[i], nd.forms[nd.pref] = nd.forms[nd.pref], nd.forms[i]
+						nd.pref++
+						break
+					}
+				}
+			}
+		}
+		f.nodes = append(f.nodes, nd)
+	}
+	rnd.Shuffle(len(f.nodes), func(i, j int) { f.nodes[i], f.nodes[j] = f.nodes[j], f.nodes[i] })
+	return f
+}
+
+// ringVals describes every form of every node for the reset event; the driver refuses (as
+// infrastructure) a family whose numbering is not by name.
+func ringVals(t *testing.T, fam ringFamily) [][]ringDesc {
+	out := make([][]ringDesc, len(fam.nodes))
+	owner := map[string]int{}
+	for n, nd := range fam.nodes {
+		if prev, dup := owner[nd.repr]; dup {
+			t.Fatalf("driver: nodes %d and %d share the name %q", prev+1, n+1, nd.repr)
+		}
+		owner[nd.repr] = n
+		for _, fv := range nd.forms {
+			d, ok := ringDescribe(fv)
+			if !ok || d.name() != nd.repr {
+				t.Fatalf("driver: form %v (%T) of node %q is described as %+v", fv, fv, nd.repr, d)
+			}
+			out[n] = append(out[n], d)
+		}
+	}
 	return out
 }
 
@@ -158,24 +471,21 @@ type ringSession struct {
 	// current value of every node on every instance is not tracked here: the spec does that
 }
 
+// lookup maps a value returned by Get back to (node, form) by Go equality with the values the
+// driver uses (all of them comparable); -2 = not a value of this family at all.
 func (s *ringSession) lookup(v any) (int, int) {
-	r := lang.Repr(v)
 	for n, nd := range s.fam.nodes {
-		if nd.repr != r {
-			continue
-		}
 		for f, fv := range nd.forms {
 			if fv == v {
 				return n + 1, f + 1
 			}
 		}
-		return n + 1, 0
 	}
-	return -2, 0 // a value that is not a node of this family at all
+	return -2, 0
 }
 
 func ringKey(j int, rnd *rand.Rand) any {
-	switch rnd.Intn(5) {
+	switch rnd.Intn(8) {
 	case 0:
 		return j
 	case 1:
@@ -184,6 +494,21 @@ func ringKey(j int, rnd *rand.Rand) any {
 		return ringStr{"user/" + strconv.Itoa(j)}
 	case 3:
 		return int64(j) * 1000003
+	case 4: // "every lookup key": numbers of every type and sign, up to the ends of the ranges
+		switch rnd.Intn(6) {
+		case 0:
+			return ^uint64(0) - uint64(j) // top half of uint64
+		case 1:
+			return uint64(1)<<63 + uint64(j)
+		case 2:
+			return -int64(j) - 1
+		case 3:
+			return uint8(128 + j%128)
+		case 4:
+			return int8(-1 - j%128)
+		default:
+			return float64(j%4096) + 0.5
+		}
 	default:
 		return fmt.Sprintf("%x", j*7919)
 	}
@@ -214,7 +539,7 @@ func (s *ringSession) pickKeys(nk, maxCap int, rnd *rand.Rand) {
 		perPoint := map[uint64]int{}
 		for j := 0; j < 400000 && targeted < nk/2; j++ {
 			k := ringKey(rnd.Intn(1<<30), rnd)
-			h := ringApplyHash(s.fn, []byte(lang.Repr(k)))
+			h := ringApplyHash(s.fn, []byte(ringName(s.t, k)))
 			idx := sort.Search(len(pts), func(i int) bool { return pts[i].h >= h }) % len(pts)
 			p := pts[idx].h
 			if shared[p] && perPoint[p] < 3 {
@@ -351,7 +676,7 @@ func (s *ringSession) ranks(maxCap int) ([][]int, []int) {
 	}
 	khs := make([]uint64, len(s.keys))
 	for k, key := range s.keys {
-		khs[k] = ringApplyHash(s.fn, []byte(lang.Repr(key)))
+		khs[k] = ringApplyHash(s.fn, []byte(ringName(s.t, key)))
 		all = append(all, khs[k])
 	}
 	sort.Slice(all, func(i, j int) bool { return all[i] < all[j] })
@@ -377,7 +702,8 @@ func (s *ringSession) ranks(maxCap int) ([][]int, []int) {
 func ringOpen(t *testing.T, em *verifEmitter, fam ringFamily, hf string, nk, maxCap int, place bool, rnd *rand.Rand) *ringSession {
 	s := &ringSession{t: t, em: em, fam: fam, fn: ringHashFunc(hf), rings: map[int]*ConsistentHash{}}
 	s.pickKeys(nk, maxCap, rnd)
-	ev := verifEv{"e": "reset", "nn": len(fam.nodes), "nk": len(s.keys), "hash": hf, "family": fam.name}
+	ev := verifEv{"e": "reset", "nn": len(fam.nodes), "nk": len(s.keys), "hash": hf, "family": fam.name,
+		"vals": ringVals(t, fam)}
 	if place {
 		vr, kr := s.ranks(maxCap)
 		ev["vh"], ev["kh"] = vr, kr
@@ -392,7 +718,7 @@ var ringCaps = []int{-1, -1, 0, 100, 130, 250}
 
 func (s *ringSession) randomOp(rnd *rand.Rand, capHint int) ringOp {
 	n := 1 + rnd.Intn(len(s.fam.nodes))
-	f := 1 + rnd.Intn(len(s.fam.nodes[n-1].forms))
+	f := s.fam.pickForm(rnd, n)
 	op := ringOp{N: n, F: f}
 	smallOrBig := func() int {
 		switch rnd.Intn(8) {
@@ -542,7 +868,7 @@ func ringRandomSession(t *testing.T, em *verifEmitter, fam ringFamily, hf string
 					ops = append(ops, s.randomOpOn(rnd, n, capOf(r)))
 				}
 				op := ringSameCount(rnd, capOf(r), ringCount(src.cap, src.last[n]), src.last[n])
-				op.F = 1 + rnd.Intn(len(s.fam.nodes[n-1].forms))
+				op.F = s.fam.pickForm(rnd, n)
 				ops = append(ops, op)
 				if rnd.Intn(4) == 0 { // detour: a visitor comes and goes
 					v := 1 + rnd.Intn(len(s.fam.nodes))
@@ -585,7 +911,7 @@ func (s *ringSession) randomOpOn(rnd *rand.Rand, n, capHint int) ringOp {
 		op = s.randomOp(rnd, capHint)
 	}
 	op.N = n
-	op.F = 1 + rnd.Intn(len(s.fam.nodes[n-1].forms))
+	op.F = s.fam.pickForm(rnd, n)
 	return op
 }
 
@@ -599,6 +925,15 @@ func TestVerifRingRandom(t *testing.T) {
 	nk := verifEnvInt("VERIF_RING_KEYS", 96)
 	for _, fam := range ringFamilies(rnd, sessions) {
 		ringRandomSession(t, em, fam, "murmur3", nk, length, false, rnd)
+	}
+	// nodes that are numbers: boundary values of every integer type and their twins
+	numeric := verifEnvInt("VERIF_RING_NUMERIC", 4)
+	for j := 0; j < numeric; j++ {
+		w := []int{64, 8, 32, 16}[j%4]
+		if j >= 4 {
+			w = 0
+		}
+		ringRandomSession(t, em, ringNumericFamily(rnd, w, 3+rnd.Intn(4)), "murmur3", nk, length, false, rnd)
 	}
 }
 
@@ -636,6 +971,7 @@ func TestVerifRingPlace(t *testing.T) {
 		}
 		ringRandomSession(t, em, fam, hf, nk, length, true, rnd)
 	}
+	ringRandomSession(t, em, ringNumericFamily(rnd, 0, 4), "murmur3", nk, length, true, rnd)
 }
 
 // ---------------------------------------------------------------- replay of TLC-generated histories
@@ -669,9 +1005,20 @@ func TestVerifRingReplay(t *testing.T) {
 	}
 	nk := verifEnvInt("VERIF_RING_KEYS", 64)
 	fams := verifEnvInt("VERIF_RING_FAMILIES", 2)
-	for fi := 0; fi < fams; fi++ {
+	numFams := verifEnvInt("VERIF_RING_NUMFAMS", 1)
+	numKeys := verifEnvInt("VERIF_RING_NUMKEYS", 32)
+	numMaxLen := verifEnvInt("VERIF_RING_NUMMAXLEN", 0) // numeric families: only histories up to this length (0 = all)
+	for fi := 0; fi < fams+numFams; fi++ {
 		kind := (fi + int(verifSeed())) % 4
-		fam := ringChainFamily(kind, rnd)
+		var fam ringFamily
+		if fi < fams {
+			fam = ringChainFamily(kind, rnd)
+		} else {
+			// abstract nodes 1,2,3 = three numbers: an anchor in the top half of an unsigned range,
+			// its two's-complement twin and one more (64-bit first, then the narrower types)
+			fam = ringNumericFamily(rnd, []int{64, 8, 32, 16}[(fi-fams)%4], 3)
+			nk = numKeys
+		}
 		replicas := []int{-1, 250, 130, 0}[fi%4]
 		capv := replicas
 		if capv < minReplicas {
@@ -680,9 +1027,12 @@ func TestVerifRingReplay(t *testing.T) {
 		s := ringOpen(t, em, fam, "murmur3", nk, capv, false, rnd)
 		few := 1 + rnd.Intn(9) // "n1"+itoa(0..9) are the replica names shared with "n"+itoa(10..19)
 		for _, hist := range hists {
+			if fi >= fams && numMaxLen > 0 && len(hist) > numMaxLen {
+				continue
+			}
 			id := s.evNew(replicas)
 			for _, a := range hist {
-				op := ringOp{N: a.N, F: 1 + rnd.Intn(len(fam.nodes[a.N-1].forms))}
+				op := ringOp{N: a.N, F: fam.pickForm(rnd, a.N)}
 				class := -1
 				switch a.Op {
 				case "add":
